@@ -14,7 +14,8 @@ def main():
     loc = vlib.mkscratch("dbg")
     r = harness.run_scenario(wfgen.to_flowir(wf), sc["script"], loc, perturb_seed=sc.get("pseed", 0),
                              jitter_p=sc.get("jitter_p", 0.3), jitter_max=sc.get("jitter_max", 0.02),
-                             storm=sc.get("storm", True), watchdog_s=float(sc.get("watchdog_s", 60)))
+                             storm=sc.get("storm", True), watchdog_s=float(sc.get("watchdog_s", 60)),
+                             linger_v=float(sc.get("linger_v", 32.0)))
     print("build_error", r["build_error"]); 
     if r["build_error"]: print(r["build_tb"]); return
     print("outcomes", [s["outcome"] for s in r["stages"]], "watchdog", r["watchdog_fired"], "wall", r["wall_s"])
@@ -27,5 +28,6 @@ def main():
         if e["kind"] in skip: continue
         print({k: v for k, v in e.items() if k not in ("thread", "graph_preds")})
     v, c = oracles.c01_check(nodes, r["events"]); print("c01", v, c)
+    v, c = oracles.single_final_state(r); print("single-final-state", v, c)
     import os; sys.stdout.flush(); os._exit(0)
 main()
